@@ -142,6 +142,7 @@ package dnsdata
 //@ ensures ntok == old(ntok) + 1 && tokK == upd(old(tokK), old(ntok), 2) && tokB == upd(old(tokB), old(ntok), p)
 //@ extern bytes Buffer.Bytes
 //@ pure
+//@ ensures result == uf.bufbytes(b)
 //@ func putdomtext
 //@ trusted
 //@ updates ntok, tokK, tokB
@@ -213,3 +214,49 @@ package dnsdata
 //@ ensures[ip] err == nil ==> tbytes(old(ntok) + 3, uf.iptext6(r.pt.rangeStart))
 //@ ensures[null] err == nil && r.pt.location.locIDIsNull ==> ntok == old(ntok) + 4
 //@ ensures[loc] err == nil && !r.pt.location.locIDIsNull ==> ntok == old(ntok) + 8 && tsep(old(ntok) + 4) && tnum(old(ntok) + 5, (r.pt.location.maskLen + ite(uf.isv4mapped(r.pt.rangeStart), 160, 0)) % 256) && tsep(old(ntok) + 6) && tloc2(old(ntok) + 7, r.pt.location.locID[0], r.pt.location.locID[1])
+
+// ---- C04 / C02: the owner key of every resource record ------------------------------------------------------
+// v1: location ++ packed(lower(name));  v2: marker ++ packed-reversed(lower(name)) ++ location. Only the NAME is
+// case-folded: the two location bytes are written verbatim (a folded location id would file the records of
+// one location under another one), and the key returned is exactly what was written to the buffer.
+// Token kinds for the binary writers: 8 = location bytes, 9 = packed name, 10 = packed reversed name.
+//@ ufun lower(slice) slice
+//@ ufun bufbytes(int) slice
+//@ spec traw(i int, kind int, b slice) bool = tokK[i] == kind && tokB[i] == b
+//@ extern bytes ToLower
+//@ pure
+//@ ensures result == uf.lower(s)
+//@ extern bytes Buffer.Grow
+//@ pure
+//@ func putloc
+//@ trusted
+//@ updates ntok, tokK, tokB
+//@ ensures ntok == old(ntok) + 1 && tokK == upd(old(tokK), old(ntok), 8) && tokB == upd(old(tokB), old(ntok), lo)
+//@ func putdom
+//@ trusted
+//@ updates ntok, tokK, tokB
+//@ ensures ntok == old(ntok) + 1 && tokK == upd(old(tokK), old(ntok), 9) && tokB == upd(old(tokB), old(ntok), a)
+//@ func putreverseddom
+//@ trusted
+//@ updates ntok, tokK, tokB
+//@ ensures ntok == old(ntok) + 1 && tokK == upd(old(tokK), old(ntok), 10) && tokB == upd(old(tokB), old(ntok), a)
+//@ func makedomainkey
+//@ updates ntok, tokK, tokS, tokB
+//@ flag skip frame
+//@ requires codec != nil
+//@ ghostret kb int = k
+//@ ensures[v1] !codec.Features.UseV2Keys ==> ntok == old(ntok) + 2 && traw(old(ntok), 8, lo) && traw(old(ntok) + 1, 9, uf.lower(domain))
+//@ ensures[v2] codec.Features.UseV2Keys ==> ntok == old(ntok) + 3 && tlit(old(ntok), ResourceRecordsKeyMarker) && traw(old(ntok) + 1, 10, uf.lower(domain)) && traw(old(ntok) + 2, 8, lo)
+//@ ensures[bytes] result == uf.bufbytes(kb)
+// makemapkey (C02/C03): map id ++ packed[-reversed](lower(name without a leading "*.")) ++ "=" for an exact
+// name or "*" for a wildcard map.
+//@ spec iswildname(d slice) bool = len(d) >= 2 && d[0] == 42 && d[1] == 46
+//@ func makemapkey
+//@ updates ntok, tokK, tokS, tokB
+//@ flag skip frame
+//@ requires codec != nil
+//@ ghostret kb int = k
+//@ ensures[id] ntok == old(ntok) + 3 && tbytes(old(ntok), mapID)
+//@ ensures[name] traw(old(ntok) + 1, ite(codec.Features.UseV2Keys, 10, 9), uf.lower(ite(iswildname(domain), domain[2:], domain)))
+//@ ensures[kind] tlit(old(ntok) + 2, ite(iswildname(domain), "*", "="))
+//@ ensures[bytes] result == uf.bufbytes(kb)
